@@ -64,6 +64,13 @@ pub fn dispatch(toks: &[&str]) -> String {
             let txt = as_text(toks[4]);
             format!("{}.",tohex(&a2kit::parse_escaped_ascii(&txt,toks[2]=="1",toks[3]=="1")))
         },
+        "mfmt" => {
+            // mfmt id w1 w2 w3 col|col|... (hex, may be empty)
+            let cols: Vec<String> = toks[5].split('|').map(|h| as_text(if h=="-" { "" } else { h })).collect();
+            let line = cols.join("\u{0100}");
+            let out = lang::merlin::formatter::format_tokens(&line,&lang::merlin::formatter::ColumnStyle::Variable,[num(toks[2]) as usize,num(toks[3]) as usize,num(toks[4]) as usize]);
+            format!("{}.",tohex(out.as_bytes()))
+        },
         "menc" => {
             // a root level comment line goes through the byte encoding unchanged: `*` + text
             let txt = as_text(toks[2]);
